@@ -1,30 +1,31 @@
 #!/bin/bash
-# sweep_par.sh <workers> <listfile> — regression sweep over seeded changes, in parallel, WITHOUT touching
-# /repo: worker k gets a scratch worktree /tmp/rsw$k of /repo and a scratch copy /tmp/vsw$k of /verif
+# sweep_par.sh <workers> <listfile> [tag] — regression sweep over seeded changes, in parallel, WITHOUT touching
+# /repo: worker k gets a scratch worktree /tmp/rsw$TAG$k of /repo and a scratch copy /tmp/vsw$TAG$k of /verif
 # whose harness is built against that worktree (VERIF_REPO).  <listfile> has lines "seedname check-id...".
-# Output: /verif/out/sweep.tsv (seed, check, exit code, summary line).  The registered checks are
+# Output: $OUT (seed, check, exit code, summary line).  The registered checks are
 # unaffected: without VERIF_REPO everything reads /repo.
-K=$1; LIST=$2
-mkdir -p /verif/out; : > /verif/out/sweep.tsv
+K=$1; LIST=$2; TAG=${3:-a}
+OUT=/verif/out/sweep_$TAG.tsv
+mkdir -p /verif/out; : > $OUT
 worker() {
   k=$1
-  git -C /repo worktree remove --force /tmp/rsw$k 2>/dev/null; rm -rf /tmp/rsw$k /tmp/vsw$k
-  git -C /repo worktree add --detach /tmp/rsw$k HEAD >/dev/null 2>&1
-  mkdir -p /tmp/vsw$k; rsync -a --exclude .git --exclude seeded --exclude out --exclude replays /verif/ /tmp/vsw$k/
-  sed -i "s#=> /repo#=> /tmp/rsw$k#" /tmp/vsw$k/harness/go.mod
-  export VERIF_REPO=/tmp/rsw$k VERIF_EVIDENCE_DIR=/tmp/vsw$k/evidence_sweep; mkdir -p $VERIF_EVIDENCE_DIR
+  git -C /repo worktree remove --force /tmp/rsw$TAG$k 2>/dev/null; rm -rf /tmp/rsw$TAG$k /tmp/vsw$TAG$k
+  git -C /repo worktree add --detach /tmp/rsw$TAG$k HEAD >/dev/null 2>&1
+  mkdir -p /tmp/vsw$TAG$k; rsync -a --exclude .git --exclude seeded --exclude out --exclude replays /verif/ /tmp/vsw$TAG$k/
+  sed -i "s#=> /repo#=> /tmp/rsw$TAG$k#" /tmp/vsw$TAG$k/harness/go.mod
+  export VERIF_REPO=/tmp/rsw$TAG$k VERIF_EVIDENCE_DIR=/tmp/vsw$TAG$k/evidence_sweep; mkdir -p $VERIF_EVIDENCE_DIR
   awk -v k=$k -v K=$K 'NR%K==k%K' $LIST | while read seed ids; do
-    if ! git -C /tmp/rsw$k apply /verif/seeded/$seed/patch.diff 2>/dev/null; then echo -e "$seed\t-\tno-apply\t-" >> /verif/out/sweep.tsv; continue; fi
+    if ! git -C /tmp/rsw$TAG$k apply /verif/seeded/$seed/patch.diff 2>/dev/null; then echo -e "$seed\t-\tno-apply\t-" >> $OUT; continue; fi
     for id in $ids; do
-      /tmp/vsw$k/check $id --tier quick > /tmp/vsw$k/last.log 2>&1; rc=$?
-      echo -e "$seed\t$id\t$rc\t$(grep -c VIOLATION /tmp/vsw$k/last.log) $(tail -1 /tmp/vsw$k/last.log | cut -c1-110)" >> /verif/out/sweep.tsv
+      /tmp/vsw$TAG$k/check $id --tier quick > /tmp/vsw$TAG$k/last.log 2>&1; rc=$?
+      echo -e "$seed\t$id\t$rc\t$(grep -c VIOLATION /tmp/vsw$TAG$k/last.log) $(tail -1 /tmp/vsw$TAG$k/last.log | cut -c1-110)" >> $OUT
       [ $rc -ne 0 ] && break
     done
-    git -C /tmp/rsw$k checkout -- . ; git -C /tmp/rsw$k clean -fdq
+    git -C /tmp/rsw$TAG$k checkout -- . ; git -C /tmp/rsw$TAG$k clean -fdq
   done
-  git -C /repo worktree remove --force /tmp/rsw$k; rm -rf /tmp/vsw$k
+  git -C /repo worktree remove --force /tmp/rsw$TAG$k; rm -rf /tmp/vsw$TAG$k
 }
 for k in $(seq 1 $K); do worker $k & done
 wait
 git -C /repo worktree prune
-sort /verif/out/sweep.tsv -o /verif/out/sweep.tsv
+sort $OUT -o $OUT
